@@ -19,8 +19,8 @@ ID = "C12"
 LEVEL = "model_checking"
 RULE = (
     "group definitions: all 5 partitions of {1,2,3} x per block kind in {plain, merge, single-instance(singletons)} with at most one non-plain block (thorough: any) x every block order x 3 naming schemes "
-    "(68 definitions quick); bases: all predictions of G1(3,3) x 6 refs (thorough: G1(3,3) x 24 refs with every kind assignment, G2(2,2,3) x 16) x input type {UNMATCHED, MATCHED, SEMANTIC}; repeated evaluate() on the same arrays; every fourth case additionally with a decision metric (IoU >= 0.6; plain and merge groups judged, whatever group was evaluated before them); every fifth case additionally with labels {1,2,3} -> {300, 2, 65535} in uint16; "
-    "rejection: every proper subset S of {1,2,3} as the only group x all pairs of G1(3,3) x input types (must raise iff a label outside S is present), and length-2 maps over {-3..3} "
+    "(68 definitions quick); bases: all predictions of G1(3,3) x 6 refs (thorough: G1(3,3) x 24 refs with every kind assignment, G2(2,2,3) x 16) x input type {UNMATCHED, MATCHED, SEMANTIC}; repeated evaluate() on the same arrays; every fourth case additionally with a decision metric (IoU >= 0.6; plain and merge groups judged, whatever group was evaluated before them); every fifth case additionally with labels {1,2,3} -> {300, 2, 65535} and -> {1, 10, 3} in uint16; "
+    "rejection: every proper subset S of {1,2,3} as the only group x all pairs of G1(3,3) x input types (must raise iff a label outside S is present), group definitions whose names collide after lower-casing (labels of overwritten groups are undefined), and length-2 maps over {-3..3} "
     "in int8/int64 semantic input (must raise iff a negative or undefined label is present). non-trivial = >= 2 groups and both restricted arrays non-empty for some group; distinct by (pair, definition, input type)"
 )
 ASSUMPTIONS = [
@@ -149,6 +149,8 @@ def cmp(a, b):
 
 
 LMAP = {1: 300, 2: 2, 3: 65535}  # label values beyond one byte / at the top of uint16, with a gap
+LMAP2 = {1: 1, 2: 10, 3: 3}  # a non-contiguous label set whose middle value is the outlier
+LMAPS = {True: LMAP, 1: LMAP, 2: LMAP2}
 
 
 def run_case(case, acc):
@@ -162,7 +164,8 @@ def run_case(case, acc):
     itype = case["itype"]
     defn = definitions(case["tier"])[case["def"]]
     if case.get("lmap") is None and "lmap" not in case and (case["pi"] + case["ri"] + case["def"]) % 5 == 0:
-        run_case({**case, "lmap": True}, acc)
+        run_case({**case, "lmap": 1}, acc)
+        run_case({**case, "lmap": 2}, acc)
     if "dec" not in case and (case["pi"] * 3 + case["ri"] + case["def"]) % 4 == 0:
         run_case({**case, "dec": ["IOU", 0.6]}, acc)
     dec = case.get("dec")
@@ -170,10 +173,11 @@ def run_case(case, acc):
         # unsigned also for semantic input: a single-instance group is evaluated as matched input, which (like ungrouped matched
         # input) only accepts unsigned arrays - signed semantic maps with such a group are rejected consistently by both
         dt = "uint16"
-        pred, ref = sc.relabel(pred, LMAP, dt), sc.relabel(ref, LMAP, dt)
-        defn = [([LMAP[l] for l in labels], k) for labels, k in defn]
+        lm = LMAPS[case["lmap"]]
+        pred, ref = sc.relabel(pred, lm, dt), sc.relabel(ref, lm, dt)
+        defn = [([lm[l] for l in labels], k) for labels, k in defn]
     names = NAMES[(case["def"] + case["pi"]) % len(NAMES)]
-    acc.case("diff", shape, case["pi"], case["ri"], case["def"], itype, bool(case.get("lmap")), repr(dec))
+    acc.case("diff", shape, case["pi"], case["ri"], case["def"], itype, case.get("lmap"), repr(dec))
     tag = f"{itype} groups={[(names[i], l, k) for i, (l, k) in enumerate(defn)]} pred={pred.tolist()} ref={ref.tolist()}"
     p0, r0 = pred.copy(), ref.copy()
     acc.step()
@@ -222,6 +226,7 @@ def run_case(case, acc):
 
 
 SUBSETS = [s for r in (1, 2) for s in itertools.combinations((1, 2, 3), r)]
+COLLIDING = [({"Disc": [1, 2], "disc": [3]}, {3}), ({"a": [1], "A": [2], "b": [3]}, {2, 3}), ({7: [3], "7": [1]}, {1})]
 
 
 def _reject(case, acc):
@@ -232,6 +237,7 @@ def _reject(case, acc):
     acc.case("reject", case["pi"], case["ri"])
     present_p = {int(x) for x in np.unique(pred) if x}
     present_r = {int(x) for x in np.unique(ref) if x}
+    _colliding(case, acc, pred, ref, present_p | present_r)
     for S in SUBSETS:
         for itype in ("UNMATCHED", "MATCHED", "SEMANTIC"):
             for split in (False, True):
@@ -260,6 +266,35 @@ def _reject(case, acc):
                         acc.violation(f"C12:defined_labels_rejected:{type(raised).__name__}", c2, f"{itype} groups over {S}: all labels are defined but evaluate() raised {raised!r}; pred={pred.tolist()} ref={ref.tolist()}")
                     else:
                         acc.ok()
+
+
+def _colliding(case, acc, pred, ref, present):
+    """group names that become equal after the library's lower-casing: only the last one survives; labels of the overwritten
+    groups belong to no group any more and must be rejected"""
+    from panoptica.utils.label_group import LabelGroup
+    from panoptica.utils.segmentation_class import SegmentationClassGroups
+
+    for gdef, surviving in COLLIDING:
+        for itype in ("UNMATCHED", "SEMANTIC"):
+            acc.step()
+            acc.state("collide", case["pi"], case["ri"], repr(gdef), itype)
+            raised = None
+            try:
+                groups = SegmentationClassGroups({k: LabelGroup(v) for k, v in gdef.items()})
+                held = {l for g in groups.keys() for l in groups[g].value_labels}
+                ev = make_evaluator(itype, matcher=MATCHER, backend="default" if itype == "SEMANTIC" else "none", instance_metrics=IM, groups=groups)
+                ev.evaluate(pred.copy(), ref.copy(), verbose=False)
+            except Exception as e:
+                raised = e
+                held = surviving
+            undefined = present - set(held)
+            c2 = {**case, "groups": {str(k): v for k, v in gdef.items()}, "itype": itype}
+            if undefined and raised is None:
+                acc.violation("C12:undefined_label_accepted:overwritten_group", c2, f"{itype} groups {gdef} (names collide after lower-casing, held groups cover {sorted(held)}): labels {sorted(undefined)} belong to no evaluated group but evaluate() returned a result; pred={pred.tolist()} ref={ref.tolist()}")
+            elif not undefined and raised is not None:
+                acc.violation(f"C12:defined_labels_rejected:{type(raised).__name__}", c2, f"{itype} groups {gdef}: all labels defined but evaluate() raised {raised!r}")
+            else:
+                acc.ok()
 
 
 def _neg(case, acc):
